@@ -55,8 +55,10 @@ ExpCallOut(st, e) ==
 ExpBatchOut(st, e) ==
   LET ds   == [j \in 1..Len(e.args) |-> Den(st.P, e.f, e.args[j], e.c)]
       errs == {j \in 1..Len(e.args) : ds[j].out # "V"}
+      \* (a batch made through ignore_result(): None in the slots of the elements that succeeded, failures as ever)
+      ign  == "mod" \in DOMAIN e /\ e.mod = "ignore"
   IN IF e.rf /\ errs # {} THEN ds[CHOOSE j \in errs : \A k \in errs : j <= k].val
-     ELSE <<"L", [j \in 1..Len(e.args) |-> ds[j].val]>>
+     ELSE <<"L", [j \in 1..Len(e.args) |-> IF ign /\ ds[j].out = "V" THEN <<"N">> ELSE ds[j].val]>>
 
 MemKeys(e) == {e.mem[i].k : i \in 1..Len(e.mem)}
 MemOk(st, e, field) ==
